@@ -103,8 +103,8 @@ type rewriteStats struct {
 	ChanOpsUnhooked  []string `json:"chan_ops_unhooked"`
 	// package-level variables of the repository: re-initialised before every in-process application run / left alone
 	SyncImportsRewritten []string `json:"sync_imports_rewritten"`
-	PkgVarsReset    []string `json:"package_vars_reset"`
-	PkgVarsNotReset []string `json:"package_vars_not_reset"`
+	PkgVarsReset         []string `json:"package_vars_reset"`
+	PkgVarsNotReset      []string `json:"package_vars_not_reset"`
 }
 
 type edit struct {
@@ -385,6 +385,8 @@ func buildOverlay(repo, verif, out string) (string, *rewriteStats, error) {
 					for _, ce := range ces {
 						edits = append(edits, edit{off(ce.cc.Pos()), off(ce.cc.Colon) + 1, ce.head})
 					}
+					// a select whose clauses all return is a terminating statement; so is a switch with a default clause
+					edits = append(edits, edit{off(s.Body.Rbrace), off(s.Body.Rbrace), "default: panic(\"verifshim: select index out of range\"); "})
 					st.ChanSendsHooked = append(st.ChanSendsHooked, site(s.Pos())+":select")
 				case *ast.AssignStmt:
 					if len(s.Rhs) != 1 {
@@ -439,6 +441,10 @@ func buildOverlay(repo, verif, out string) (string, *rewriteStats, error) {
 					edits = append(edits, edit{off(im.Path.Pos()), off(im.Path.End()), `"` + shimImportPath + `/vsync"`})
 					st.SyncImportsRewritten = append(st.SyncImportsRewritten, site(im.Pos()))
 				}
+				if im.Path.Value == `"sync/atomic"` {
+					edits = append(edits, edit{off(im.Path.Pos()), off(im.Path.End()), `"` + shimImportPath + `/vatomic"`})
+					st.SyncImportsRewritten = append(st.SyncImportsRewritten, site(im.Pos())+":atomic")
+				}
 			}
 			if len(edits) == 0 && len(fileResets) == 0 {
 				continue
@@ -488,6 +494,10 @@ func buildOverlay(repo, verif, out string) (string, *rewriteStats, error) {
 	shimFiles, _ := filepath.Glob(filepath.Join(verif, "shim", "*.go"))
 	for _, sf := range shimFiles {
 		overlay[filepath.Join(repo, "verifshim", filepath.Base(sf))] = sf
+	}
+	vaFiles, _ := filepath.Glob(filepath.Join(verif, "shim", "vatomic", "*.go"))
+	for _, sf := range vaFiles {
+		overlay[filepath.Join(repo, "verifshim", "vatomic", filepath.Base(sf))] = sf
 	}
 	vsFiles, _ := filepath.Glob(filepath.Join(verif, "shim", "vsync", "*.go"))
 	for _, sf := range vsFiles {
